@@ -1749,7 +1749,7 @@ func (c *dedicatedClusterClient) Close() {
 		p.close <- ErrClosing
 		close(p.close)
 	}
-	if c.wire != nil {
+	if c.wire != nil && !c.mark { // after release the wire belongs to the pool or to the next holder
 		c.wire.Close()
 	}
 	c.mu.Unlock()
